@@ -289,12 +289,18 @@ func diffClass(a, b string) string {
 		case strings.HasPrefix(tx, "Q "):
 			set["queue-usage"] = true
 		case strings.HasPrefix(tx, "T "):
-			onlyVirtual := field(x, "st") == field(y, "st") && field(x, "node") == field(y, "node") && field(x, "groups") == field(y, "groups") && field(x, "claims") == field(y, "claims")
-			if onlyVirtual {
+			sameState := field(x, "st") == field(y, "st") && field(x, "node") == field(y, "node") && field(x, "groups") == field(y, "groups")
+			sameClaims := claimsOf(x) == claimsOf(y)
+			switch {
+			case sameState && sameClaims:
 				set["task-virtual-flag"] = true
-			} else {
+			case sameState:
+				set["task-claim-devices"] = true
+			default:
 				set["task-state"] = true
 			}
+		case strings.HasPrefix(tx, "C "), strings.HasPrefix(tx, "CS "), strings.HasPrefix(tx, "CD "), strings.HasPrefix(tx, "CP "):
+			set["claim-view"] = true
 		default:
 			set["other"] = true
 		}
@@ -302,6 +308,14 @@ func diffClass(a, b string) string {
 	ks := maps.Keys(set)
 	sort.Strings(ks)
 	return strings.Join(ks, "+")
+}
+
+// claimsOf: the claims=[...] suffix of a task line of the dump.
+func claimsOf(l string) string {
+	if i := strings.Index(l, " claims="); i >= 0 {
+		return l[i:]
+	}
+	return ""
 }
 
 func seqString(seq []c13Op) string {
@@ -428,7 +442,28 @@ func c13Bases() map[string]*world.World {
 		world.WL{Queue: "qb", MinMember: 1, Pods: pods(2, shG1, world.StRunning, "n1")},
 		world.WL{Queue: "qa", Pods: pods(1, shF3, "", "")},
 		world.WL{Queue: "qa", Pods: pods(1, shM30, "", "")})
+	out["dra-claims"] = C13DRABase()
 	return out
+}
+
+// C13DRABase: node n1 offers 2 DRA devices ("0", "1" in one ResourceSlice) and no device-plugin GPUs;
+// node n2 offers 2 device-plugin GPUs (the scheduler refuses device-plugin GPU requests on a node
+// with DRA GPUs — node_info.PredicateByNodeResourcesType — so ordinary GPU pods need their own node).
+// w0 runs on n1 holding a claim allocated to device "1" and reserved for it alone (an eviction
+// therefore drops the allocation, and a from-scratch re-allocation would pick the free device
+// "0"); w1 is pending with an unallocated claim; w2 / w3 are an ordinary running / pending
+// whole-GPU pod. Running on this world switches the DRA feature gate on (schedrun.Materialise).
+func C13DRABase() *world.World {
+	b := world.NewBuilder()
+	b.Node(world.NodeOpt{Name: "n1", CPU: "8", Mem: "16Gi"})
+	b.Node(world.NodeOpt{Name: "n2", CPU: "8", Mem: "16Gi", GPUs: 2, GPUMemMiB: 40000})
+	DRANodeDevices(b, "n1", 2)
+	b.GQueue("dept", "", -1, -1, 1).GQueue("qa", "dept", 1, -1, 1).GQueue("qb", "dept", 1, -1, 1)
+	AddDRARunning(b, "w0", "qb", "n1", "1", world.WL{})
+	AddDRAPending(b, "w1", "qa", world.WL{})
+	b.Workload(world.WL{Name: "w2", Queue: "qb", Pods: pods(1, shG1, world.StRunning, "n2")})
+	b.Workload(world.WL{Name: "w3", Queue: "qa", Pods: pods(1, shG1, "", "")})
+	return b.Done()
 }
 
 // commitUniqueness: on committed statements of real cycles each pod is bound at most once and
@@ -579,13 +614,13 @@ func runC13(tier string) int {
 		"samples": samples, "sequences": total.Sequences, "operations_executed": total.Ops, "rollbacks_checked": total.Rollbacks,
 		"depth": depth, "bases": names, "commit_cycles_checked": commitCycles, "commit_decisions_checked": commitDecisions, "exhaustive": !total.CapHit, "cap_hit": total.CapHit,
 		"evaluations": total.Sequences, "distinct_nontrivial": len(distinct),
-		"rule": "all well-formed sequences (length <= depth) of {AllocateJob real, AllocateJob pipeline-only, Evict, Unevict, Checkpoint, Rollback(cp_i), ConvertAllAllocatedToPipelined} enabled in the live session state, from 4 base sessions opened through the real snapshot path; each sequence ends with Discard; distinct = distinct scheduler views reached before the discard",
+		"rule": "all well-formed sequences (length <= depth) of {AllocateJob real, AllocateJob pipeline-only, Evict, Unevict, Checkpoint, Rollback(cp_i), ConvertAllAllocatedToPipelined} enabled in the live session state, from the base sessions (see bases) opened through the real snapshot path; each sequence ends with Discard; distinct = distinct scheduler views reached before the discard",
 	}
 	if len(rep.KnownHits()) > 0 {
 		cov["known_finding_hits"] = rep.KnownHits()
 	}
 	_ = engine.WriteEvidence(&engine.Evidence{PropertyID: "C13", Tier: tier, Seed: engine.SeedFromEnv(), Level: "model_checking", Coverage: cov,
-		Assumptions: []string{"operations are issued through the entry points the actions use (common.AllocateJob, Statement.Evict/Unevict/Checkpoint/Rollback/ConvertAllAllocatedToPipelined/Discard)", "the dump covers nodes (counters, vectors, pods, per-device maps), workloads (task status/node/groups/virtual flag/claims, counters) and queue usage"},
+		Assumptions: []string{"operations are issued through the entry points the actions use (common.AllocateJob, Statement.Evict/Unevict/Checkpoint/Rollback/ConvertAllAllocatedToPipelined/Discard)", "the dump covers nodes (counters, vectors, pods, per-device maps), workloads (task status/node/groups/virtual flag/claim devices, counters), queue usage and resource claims (session snapshot; with DRA on also the DRA manager's live claims, allocated devices and pending allocations)", "base dra-claims runs with the DynamicResourceAllocation feature gate on (derived from the world), all other bases with the gate off"},
 		WallS:       time.Since(start).Seconds(), Violations: rep.NewCount()})
 	fmt.Printf("C13 %s: bases=%d sequences=%d ops=%d rollbacks=%d distinct-views=%d depth=%d exhaustive=%v wall=%.1fs\n", tier, len(names), total.Sequences, total.Ops, total.Rollbacks, len(distinct), depth, !total.CapHit, time.Since(start).Seconds())
 	if total.Sequences < 100 || len(distinct) < 5 {
